@@ -195,6 +195,7 @@ def _forward_ref(repo, ob, failure):
         (['<rect id="p" inside="#a"/>', '<circle id="a" cxy="#b@c" r="9"/>', '<rect id="b" xy="30 20" wh="4"/>'], [2, 1, 0]),
         (['<rect id="p" inside="#a"/>', '<ellipse id="a" cxy="#b@c" rxy="9 6"/>', '<rect id="b" xy="30 20" wh="4"/>'], [2, 1, 0]),
         (['<use id="u" href="#t" cxy="20 20"/>', '<rect id="t" xy="#z|h" wh="4"/>', '<rect id="z" wh="2"/>'], [2, 1, 0]),
+        (['<rect id="a" xy="20 20" wh="10"/>', '<reuse id="i" href="#t" xy="#a|H 2"/>', '<rect id="t" xy="#z|h" wh="6 4"/>', '<rect id="z" wh="3"/>'], [3, 2, 0, 1]),
     ]
 
     def geom(out):
